@@ -163,6 +163,72 @@ def main(p):
     return ob
 
 
+def _estimate_job(args) -> Obligation:
+    """estimate_isotopic_distribution(mass, options) = isotopic_distribution(averagine composition of that mass, the same options):
+    every option is forwarded; scaling as requested; the lightest peak of the mass view sits at the requested neutral mass"""
+    mass0, use_n, out_m, is_sum, th = args
+    import z3
+    from .. import symreal as SR
+    from ..e2lib import run_e2
+    from peptacular.isotope import isotopic_distribution, estimate_isotopic_distribution
+    from peptacular.chem.chem_calc import estimate_comp
+
+    def fn():
+        A = SR.real("abundance")
+        SR.assume(z3.And(A.t > 0, A.t <= 1000000))
+        kw = dict(max_isotopes=6, min_abundance_threshold=th, distribution_resolution=3, use_neutron_count=use_n, distribution_abundance=A,
+                  is_abundance_sum=is_sum, output_masses_for_neutron_offset=out_m, neutron_mass=1.002856)
+        got = estimate_isotopic_distribution(mass0, **kw)
+        ref = isotopic_distribution(estimate_comp(mass0), **kw)
+        if len(got) != len(ref) or not got:
+            fn.why = f"{len(got)} peaks, isotopic_distribution(estimate_comp(mass)) gives {len(ref)}"
+            return False
+        props = []
+        tot = 0
+        for (m1, a1), (m2, a2) in zip(got, ref):
+            props.append(z3.And(SR.T(m1) == SR.T(m2), SR.T(a1) == SR.T(a2)))
+            tot = tot + a1
+        if is_sum:
+            props.append(SR.close(tot, A, 1e-9 * 1000000))
+        else:
+            props.append(z3.Or(*[SR.close(a, A, 1e-9 * 1000000) for _, a in got]))
+        if not use_n and th == 0.0:
+            props.append(SR.close(got[0][0], mass0, 2e-3))        # resolution 3
+        return z3.And(*props)
+
+    fn.why = ""
+
+    def replay(model):
+        from ..e2lib import native_call
+        code = r"""
+def main(p):
+    from peptacular.isotope import isotopic_distribution, estimate_isotopic_distribution
+    from peptacular.chem.chem_calc import estimate_comp
+    A = p["A"]
+    kw = dict(max_isotopes=6, min_abundance_threshold=p["th"], distribution_resolution=3, use_neutron_count=p["use_n"], distribution_abundance=A,
+              is_abundance_sum=p["is_sum"], output_masses_for_neutron_offset=p["out_m"], neutron_mass=1.002856)
+    got = estimate_isotopic_distribution(p["mass"], **kw)
+    ref = isotopic_distribution(estimate_comp(p["mass"]), **kw)
+    bad = []
+    if len(got) != len(ref) or any(abs(a - c) > 1e-9 or abs(b - d) > 1e-9 * max(1, A) for (a, b), (c, d) in zip(got, ref)):
+        bad.append(f"differs from isotopic_distribution(estimate_comp(mass), same options): {got[:3]} vs {ref[:3]}")
+    ab = [y for _, y in got]
+    if p["is_sum"] and abs(sum(ab) - A) > 1e-6 * max(1, A): bad.append(f"total {sum(ab)} != requested {A}")
+    if not p["is_sum"] and abs(max(ab) - A) > 1e-6 * max(1, A): bad.append(f"largest peak {max(ab)} != requested {A}")
+    if not p["use_n"] and p["th"] == 0.0 and abs(got[0][0] - p["mass"]) > 2e-3: bad.append(f"lightest peak {got[0][0]} != neutral mass {p['mass']}")
+    return {"violated": bool(bad), "detail": f"estimate_isotopic_distribution({p['mass']}, use_neutron_count={p['use_n']}, output_masses={p['out_m']}, sum={p['is_sum']}, abundance={A}, threshold={p['th']}): " + "; ".join(bad)}
+"""
+        res = native_call(code, {"mass": mass0, "A": model.get("abundance", 1.0), "use_n": use_n, "out_m": out_m, "is_sum": is_sum, "th": th})
+        return res["violated"], res["detail"], None
+
+    ob = run_e2(f"estimate/{mass0}/n={int(use_n)}{int(out_m)}/sum={int(is_sum)}/th={th}", "estimate_isotopic_distribution forwards every option to isotopic_distribution of the averagine composition; scaled as requested",
+                fn, functions=["isotope.estimate_isotopic_distribution", "chem_calc.estimate_comp"] + FUNCS[:4], bounds="neutral mass concrete, requested abundance symbolic in (0,1e6]",
+                replay=replay, budget_s=60)
+    if ob.cex is not None:
+        ob.cex["args"] = list(args)
+    return ob
+
+
 def _scaling_job(args, excl=()) -> Obligation:
     """real isotope tables; distribution_abundance, threshold, particle counts, neutron mass symbolic"""
     comp, use_n, out_m, is_sum, with_particles = args
@@ -397,7 +463,7 @@ def _dispatch(job):
 
 def _dispatch1(job):
     kind, args = job
-    return {"scaling": _scaling_job, "abundance": _abundance_job, "merge": _merge_job, "binning": _binning_job, "labels": _label_job}[kind](args)
+    return {"scaling": _scaling_job, "abundance": _abundance_job, "merge": _merge_job, "binning": _binning_job, "labels": _label_job, "estimate": _estimate_job}[kind](args)
 
 
 def run(tier: str, seed: int, only=None) -> Report:
@@ -415,6 +481,11 @@ def run(tier: str, seed: int, only=None) -> Report:
     for comp in comps:
         for is_sum in (False, True):
             jobs.append(("binning", (comp, is_sum)))
+    for mass0 in ((300.0, 1234.5678) if tier == "quick" else (57.02, 300.0, 1234.5678, 4321.0)):
+        for use_n, out_m in ((False, False), (True, False), (True, True)):
+            for is_sum in (False, True):
+                for th in (0.0, 0.001):
+                    jobs.append(("estimate", (mass0, use_n, out_m, is_sum, th)))
     import re as _re
     import peptacular.constants as K
     labels = sorted(k for k in K.ATOMIC_SYMBOL_TO_ISOTOPE_MASSES_AND_ABUNDANCES if _re.match(r"^\d", k) or k in ("D", "T"))
